@@ -260,6 +260,7 @@ def run(ck, F):
         ck.check(R3t, 'inventory', True, 'no character is picked out of a table row in the printer')
 
     # unformatted output with an explicit extent: write(buffer, n) / put(c) on the stream or its buffer
+    c_string_insertions(ck, F, 'C18')
     R5 = ck.rule('C18.explicit-extent-writes', 'an unformatted write of the printer (ostream::write / put, streambuf::sputn / sputc) takes its '
                  'bytes from a whole character view (data() and size() of the same object: a spelling of the graph) or from a constant '
                  'whose bytes up to the largest extent the call can ask for are printable: no terminating NUL or control byte reaches the '
@@ -521,3 +522,48 @@ def run(ck, F):
                         bad.append(repr(bytes(b)))
             ck.check(R3, 'table ' + g['q'], not bad, f'table {g["q"]} holds {bad}: printed verbatim, these are control bytes',
                      loc=g['loc'])
+
+
+def c_string_insertions(ck, F, prefix):
+    """<prefix>.no-view-as-c-string: a formatted insertion of a `const char*` reads up to the next NUL; the code units of a word (a view
+    into the string arena, the characters of a String) are not NUL-terminated, so such a pointer must never be inserted as a C string."""
+    import firstunit
+    R = ck.rule(f'{prefix}.no-view-as-c-string', 'no formatted insertion of a character pointer (`stream << p`, which reads up to the next NUL) '
+                'takes its pointer from the data of a word view or of a String: those code units are not NUL-terminated (the bytes after them belong '
+                'to the next word of the arena, or to nothing), so the text printed would depend on what was interned afterwards', floor=1)
+    n = 0
+    for f in sorted(F.fn.values(), key=lambda f: f['id']):
+        if f['loc'].split(':')[0] not in PRINTER_FILES and not f['loc'].startswith(('src/', 'include/')):
+            continue
+        for m in walk(f.get('body')):
+            if m.get('k') != 'call' or (m.get('callee') or {}).get('name') != 'operator<<' or (m.get('callee') or {}).get('repo') is not False:
+                continue
+            cid = m['callee'].get('id') or ''
+            if 'const char *' not in cid and 'const char8_t *' not in cid and 'const signed char *' not in cid and 'const unsigned char *' not in cid:
+                continue
+            args = m.get('args') or []
+            if len(args) < 2:
+                continue
+            n += 1
+            e = args[1]
+            while isinstance(e, dict) and e.get('k') in ('cast', 'paren') and 'e' in e:
+                e = e['e']
+            if e.get('k') == 'ref' and e.get('kind') == 'local':
+                from facts import local_init as _li
+                e = _li(f, e) or e
+                while isinstance(e, dict) and e.get('k') in ('cast', 'paren') and 'e' in e:
+                    e = e['e']
+            bad = None
+            if e.get('k') == 'call' and (e.get('callee') or {}).get('name') in ('data', 'begin', 'cbegin') and e.get('obj') is not None and firstunit._is_word(e['obj']):
+                bad = f'{(e["callee"] or {}).get("name")}() of a {(e["obj"].get("t") or "").split("<")[0]}'
+            elif e.get('k') == 'unop' and e.get('op') == '&':
+                x = e.get('e') or {}
+                while isinstance(x, dict) and x.get('k') in ('cast', 'paren') and 'e' in x:
+                    x = x['e']
+                if x.get('k') == 'call' and (x.get('callee') or {}).get('name') in ('operator[]', 'front', 'at') and x.get('obj') is not None and firstunit._is_word(x['obj']):
+                    bad = f'the address of an element of a {(x["obj"].get("t") or "").split("<")[0]}'
+            ck.check(R, f'{contracts.short(contracts.fn_qname(f["id"]))}:{m.get("ln")}', bad is None,
+                     f'{f["id"]} (line {m.get("ln")}) inserts {bad} as a C string: the insertion runs on past the word until it meets a NUL',
+                     loc=f['loc'], fn=f['id'])
+    if n == 0:
+        ck.check(R, 'inventory', True, '')
